@@ -530,6 +530,23 @@ def verify_guard(prog, site, g):
                 if op == spec["op"] and re.search(spec["lhs"], sym_str(l, 400)) and re.search(spec["rhs"], sym_str(r, 400)):
                     return True, "dominating comparison %s %s %s" % (sym_str(l), op, sym_str(r))
         return False, "no dominating comparison %s" % spec
+    if "helper_reads" in g:
+        # the decision of a workspace guard helper must consult all of the listed inputs
+        spec = g["helper_reads"]
+        hs = prog.find(spec["fn"])
+        if len(hs) != 1:
+            return False, "guard helper %s not found" % spec["fn"]
+        h = hs[0]
+        text = []
+        for bi in h.live_blocks():
+            t = h.blocks[bi]["term"]
+            if t["k"] == "switch":
+                text.append(sym_str(h.sym_operand(t["d"], 30), 2000))
+        joined = " ".join(text)
+        missing = [r for r in spec["reads"] if not re.search(r, joined)]
+        if missing:
+            return False, "guard helper %s no longer bases its decision on %s" % (h.name, missing)
+        return True, "%s decides on %s" % (h.name, spec["reads"])
     if "py" in g:
         import importlib
         mod, fnname = g["py"].split(":")
